@@ -46,8 +46,12 @@ def _rows_of(snap, dec, only=None):
 
 def concretise_script(world, model):
     """SymWorld (after a path) + model -> JSON-able replay description incl. predicted observations"""
+    if isinstance(world, (list, tuple)):
+        dec = model if isinstance(model, Decoder) else Decoder(model)
+        return dict(multi=[concretise_script(w, dec) for w in world])
     acts = []
-    model = Decoder(model)
+    if not isinstance(model, Decoder):
+        model = Decoder(model)
     for a in world.script:
         k = a[0]
         if k == "config":
@@ -172,6 +176,19 @@ class RealFactory:
     def __init__(self, server):
         self.server = server
         self.reactor = None
+
+
+def run_and_compare(cs):
+    """(observed, diffs) for a single or multi-world concretised script"""
+    if "multi" in cs:
+        obs, diffs = [], []
+        for i, one in enumerate(cs["multi"]):
+            o = run_script(one)
+            obs.append(o)
+            diffs += ["run %d: %s" % (i + 1, d) for d in compare(one["predicted"], o)]
+        return dict(obs=[o["obs"] for o in obs], multi=obs), diffs
+    o = run_script(cs)
+    return o, compare(cs["predicted"], o)
 
 
 def run_script(cs, keep_dir=None):
